@@ -716,6 +716,7 @@ func cmdCheck(prop string, args []string) {
 	// ---- classify ----
 	otherProps := map[string]int{}
 	artefacts := 0
+	oomOnce := 0
 	type group struct {
 		prop, sig string
 		ex        []*payload
@@ -827,6 +828,19 @@ func cmdCheck(prop string, args []string) {
 			fmt.Printf("vcheck: %d run(s) hit the watchdog once but do not stall when replayed (%s): counted as abandoned runs\n", len(g.ex), final.ReplaysOK)
 			continue
 		}
+		if strings.Contains(g.sig, "/panic/") && strings.HasPrefix(final.ReplaysOK, "0/") && final.Violation != nil &&
+			strings.Contains(firstLine(final.Violation.Message), "out of memory") {
+			// a child that ran out of its address-space limit in a run which, replayed in
+			// fresh processes, never does: the accumulated heap of a long-lived child
+			// (frames may legitimately announce up to 256 MiB each), not this run
+			nviol -= len(g.ex)
+			if nviol == 0 {
+				exit = 0
+			}
+			oomOnce += len(g.ex)
+			fmt.Printf("vcheck: %d run(s) ended with 'out of memory' in a long-lived child but never when replayed alone (%s): counted as abandoned runs\n", len(g.ex), final.ReplaysOK)
+			continue
+		}
 		final.Property = g.prop
 		final.RepoHead = repoHead()
 		b, _ := json.MarshalIndent(final, "", " ")
@@ -854,6 +868,10 @@ func cmdCheck(prop string, args []string) {
 		}
 	}
 	total.probes["harness.runs-abandoned-synctest-mutex-artefact"] += artefacts
+	total.probes["harness.runs-abandoned-out-of-memory-not-reproducible"] += oomOnce
+	if oomOnce > 3+total.runs/100000 {
+		infra = append(infra, fmt.Sprintf("%d runs ended with a non-reproducible out of memory: too many for %d runs", oomOnce, total.runs))
+	}
 	writeEvidence(prop, spec, *tier, *seed, total, perScen, nviol, time.Since(start))
 	if len(infra) > 0 {
 		sort.Strings(infra)
